@@ -147,6 +147,11 @@ func c09Truncation(w *core.WorkerCtx) {
 }
 
 func c02Truncation(w *core.WorkerCtx) {
+	if w.Batch == 2 || (w.Thorough() && w.Batch%8 == 2) {
+		// a truncation cancelled half way, further attempts, then spends: nothing may be forgotten or counted twice
+		longScenario(w, []string{"C02"}, 1003, ledger.LongOpts{Nodes: 1, Size: 1035, Truncations: 2, Between: 150, PostOps: 80, Interrupt: true})
+		return
+	}
 	if w.Batch != 0 && !w.Thorough() {
 		return
 	}
@@ -157,6 +162,11 @@ func c02Truncation(w *core.WorkerCtx) {
 }
 
 func c06Truncation(w *core.WorkerCtx) {
+	if w.Batch == 3 || (w.Thorough() && w.Batch%8 == 3) {
+		// a truncation cancelled half way, further attempts: balances stay the reference sums
+		longScenario(w, []string{"C06"}, 1003, ledger.LongOpts{Nodes: 1, Size: 1035, Truncations: 2, Between: 150, PostOps: 40, Interrupt: true})
+		return
+	}
 	if w.Batch != 0 && !w.Thorough() {
 		return
 	}
